@@ -549,6 +549,49 @@ def readlinkOp (c : Cfg) (fs : FS) (p : Text) : Except Err Text :=
     | none => .error .notExist
     | some i => if !(fs.node i).isSymlink then .error .notLink else .ok (fs.node i).target
 
+/-- set the header's xattrs (through `SetXattr(hdr.Name, …)`, which follows links) and report `v` -/
+def finishXattrs (c : Cfg) (h : Hdr) (fs : FS) (v : Val) : FS × Out :=
+  match setXattrs c h.name h.xattrs fs with
+  | (fs2, none) => (fs2, .ok v)
+  | (fs2, some e) => (fs2, .err e)
+
+/-- `WriteHeader`, `tar.TypeDir`: `MkdirAll`, `Chtimes`, xattrs -/
+def whDir (c : Cfg) (fs : FS) (h : Hdr) : FS × Out :=
+  match mkdirAll c fs h.name (h.mode &&& 0o777) with
+  | (fs1, .ok _) =>
+    match getNode c fs1 h.name with
+    | .error e => (fs1, .err e)
+    | .ok i => finishXattrs c h (fs1.modify i fun n => { n with mtime := h.mtime }) (.bool true)
+  | (fs1, o) => (fs1, o)
+
+/-- a symlink entry that is already there with the same target is skipped -/
+def whSameLink (c : Cfg) (fs : FS) (h : Hdr) : Bool :=
+  decide (h.typeflag = 50) &&
+    (match readlinkOp c fs h.name with
+     | .ok t => decide (t = h.linkname)
+     | _ => false)
+
+/-- `WriteHeader`, `tar.TypeReg` / `tar.TypeSymlink` -/
+def whFile (c : Cfg) (fs : FS) (h : Hdr) : FS × Out :=
+  if whSameLink c fs h then (fs, .ok (.bool false)) else
+  match h.checksum with
+  | none => (fs, .err .nilChecksum)
+  | some sum =>
+    match writeHeaderFile c fs h sum with
+    | (fs1, .error e) => (fs1, .err e)
+    | (fs1, .ok installed) => finishXattrs c h fs1 (.bool installed)
+
+/-- `tarfs.WriteHeader` (not atomic on failure: xattrs are set after the node was entered) -/
+def writeHeaderOp (c : Cfg) (fs : FS) (h : Hdr) : FS × Out :=
+  if c.backend ≠ .tarfs then (fs, .err .unsupported) else
+  if h.typeflag = 53 then whDir c fs h
+  else if h.typeflag = 48 ∨ h.typeflag = 50 then whFile c fs h
+  else if h.typeflag = 49 then
+    match linkOp c fs h.linkname h.name true with
+    | (fs1, .ok _) => (fs1, .ok (.bool true))
+    | r => r
+  else (fs, .err .unsupported)
+
 def step (c : Cfg) (fs : FS) : Op → FS × Out
   | .mkdir path perm =>
     match parentOf c fs path with
@@ -718,39 +761,7 @@ def step (c : Cfg) (fs : FS) : Op → FS × Out
     match getNode c fs p with
     | .error _ => (fs, .err .notExist)
     | .ok i => (fs, .ok (.xattrs (sortNames (fs.node i).xattrs)))
-  | .writeHeader h =>
-    if c.backend ≠ .tarfs then (fs, .err .unsupported) else
-    if h.typeflag = 53 then
-      match mkdirAll c fs h.name (h.mode &&& 0o777) with
-      | (fs1, .ok _) =>
-        match getNode c fs1 h.name with
-        | .error e => (fs1, .err e)
-        | .ok i =>
-          let fs2 := fs1.modify i fun n => { n with mtime := h.mtime }
-          match setXattrs c h.name h.xattrs fs2 with
-          | (fs3, none) => (fs3, .ok (.bool true))
-          | (fs3, some e) => (fs3, .err e)
-      | (fs1, o) => (fs1, o)
-    else if h.typeflag = 48 ∨ h.typeflag = 50 then
-      let same : Bool := decide (h.typeflag = 50) &&
-        (match readlinkOp c fs h.name with
-         | .ok t => decide (t = h.linkname)
-         | _ => false)
-      if same then (fs, .ok (.bool false)) else
-      match h.checksum with
-      | none => (fs, .err .nilChecksum)
-      | some sum =>
-        match writeHeaderFile c fs h sum with
-        | (fs1, .error e) => (fs1, .err e)
-        | (fs1, .ok installed) =>
-          match setXattrs c h.name h.xattrs fs1 with
-          | (fs2, none) => (fs2, .ok (.bool installed))
-          | (fs2, some e) => (fs2, .err e)
-    else if h.typeflag = 49 then
-      match linkOp c fs h.linkname h.name true with
-      | (fs1, .ok _) => (fs1, .ok (.bool true))
-      | r => r
-    else (fs, .err .unsupported)
+  | .writeHeader h => writeHeaderOp c fs h
 
 /-- run a sequence, collecting the results -/
 def run (c : Cfg) : FS → List Op → FS × List Out
@@ -766,6 +777,14 @@ def run (c : Cfg) : FS → List Op → FS × List Out
 failed opens are bookkeeping of the harness).  The canonical text dump compared by the
 correspondence suite (`Driver/FS.lean: dump`) is a function of `nodes`. -/
 def observe (fs : FS) : List Inode × List Handle := (fs.nodes, fs.handles.filter (·.valid))
+
+/-- The structural invariant of the node graph: the root is a directory, names inside one
+directory are distinct, every entry refers to a live node, only directories have entries. -/
+structure Inv (fs : FS) : Prop where
+  root : (fs.node 0).dir = true
+  names : ∀ i : Nat, ((fs.node i).children.map (·.1)).Nodup
+  live : ∀ (i : Nat) (n : Name) (j : Nat), (n, j) ∈ (fs.node i).children → j < fs.nodes.length
+  files : ∀ i : Nat, (fs.node i).dir = false → (fs.node i).children = []
 
 /-- `ReadDir` of a node: names with their nodes, sorted by name -/
 def readdir (fs : FS) (d : Ino) : List (Name × Ino) := sortNames (fs.node d).children
